@@ -329,6 +329,12 @@ func relCases(g *G, n int, f func(op string, c Ctx, x, y Dec, q int)) {
 			ds := dirtySpecials()
 			x = ds[g.R.Intn(len(ds))]
 		}
+		if g.R.Intn(6) == 0 { // small values in heap-backed storage
+			x.Hp = true
+		}
+		if g.R.Intn(6) == 0 {
+			y.Hp = true
+		}
 		op := allOps[g.R.Intn(len(allOps))]
 		switch op {
 		case "exp", "ln", "log10", "pow", "sqrt", "cbrt":
